@@ -244,7 +244,7 @@ def run_point(p: Dict[str, Any], verbose: bool = False) -> Tuple[Optional[Dict[s
     violation, finding, obs = compare(p)
     if verbose:
         for mode in ("plain", "dup-qm", "dup-all"):
-            tr, calls, _ = execute(p, mode)
+            tr, calls, *_rest = execute(p, mode)
             print("   ", mode, [(t, d[0], len(x)) for t, d, x in tr], calls)
     if violation:
         return ({"what": f"C16 {p}: {violation[:700]}", "replay": {}, "signature": {"check": violation.split(":")[0][:60]}},
